@@ -6,15 +6,17 @@ use cosmwasm_std::{
 };
 use std::collections::BTreeMap;
 use std::ops::Bound;
+use std::sync::Arc;
 
 #[derive(Clone, Debug, Default, Hash, PartialEq, Eq)]
 pub struct Kv {
-    pub m: BTreeMap<Vec<u8>, Vec<u8>>,
+    /// values are shared between the many clones of a world (most transitions touch few keys)
+    pub m: BTreeMap<Vec<u8>, Arc<Vec<u8>>>,
 }
 
 impl Storage for Kv {
     fn get(&self, key: &[u8]) -> Option<Vec<u8>> {
-        self.m.get(key).cloned()
+        self.m.get(key).map(|v| v.as_ref().clone())
     }
     fn range<'a>(
         &'a self,
@@ -35,7 +37,7 @@ impl Storage for Kv {
                 return Box::new(std::iter::empty());
             }
         }
-        let it = self.m.range((lo, hi)).map(|(k, v)| (k.clone(), v.clone()));
+        let it = self.m.range((lo, hi)).map(|(k, v)| (k.clone(), v.as_ref().clone()));
         match order {
             Order::Ascending => Box::new(it),
             Order::Descending => Box::new(it.rev()),
@@ -45,7 +47,7 @@ impl Storage for Kv {
         if value.is_empty() {
             panic!("TL;DR: Value must not be empty in Storage::set but in most cases you can use Storage::remove instead.");
         }
-        self.m.insert(key.to_vec(), value.to_vec());
+        self.m.insert(key.to_vec(), Arc::new(value.to_vec()));
     }
     fn remove(&mut self, key: &[u8]) {
         self.m.remove(key);
